@@ -305,14 +305,14 @@ def gen_any_semver(rng):
 def run(ctx):
     quick = ctx.tier == "quick"
     rng = ctx.sub_rng("c07")
-    ncanon = 25000 if quick else 200000
+    ncanon = 25000 if quick else 800000
     canon = [gen_fields(rng, U32) for _ in range(ncanon)]
-    npep = 25000 if quick else 200000
+    npep = 25000 if quick else 800000
     peps = sorted(set(gen_pep(rng) for _ in range(npep)))
-    nsem = 15000 if quick else 150000
+    nsem = 15000 if quick else 600000
     sems = sorted(set(gen_any_semver(rng) for _ in range(nsem)))
     bigs = []
-    for _ in range(4000 if quick else 30000):
+    for _ in range(4000 if quick else 120000):
         f = gen_fields(rng, U32)
         slot = rng.choice(SLOTS)
         b = rng.choice(BIG)
@@ -322,7 +322,7 @@ def run(ctx):
             f[slot] = b
         bigs.append((f, slot))
     # u64-range SemVer-only path: canonical shapes with numbers up to u64 must survive semver->semver
-    wide = [gen_fields(rng, U64) for _ in range(4000 if quick else 30000)]
+    wide = [gen_fields(rng, U64) for _ in range(4000 if quick else 120000)]
     allbad = []
     for r in core.pmap(work_canonical, [(ctx.bins, p) for p in core.split_even(canon, 32)]):
         ctx.evaluations += r["n"]
